@@ -243,7 +243,7 @@ fn c10_representative_n1() {
 }
 #[kani::proof]
 #[kani::unwind(4)]
-fn c10_t_representative_n2() {
+fn c10_representative_n2() {
     representative_n::<2>();
 }
 #[kani::proof]
